@@ -51,6 +51,9 @@ def run(ctx):
     r3 = ctx.rule("C13.R3", "BOUNDARY: for every interpolation code, at every breakpoint where the published function is differentiable (left and right pieces have the same first derivative there), the expression the vectorised code SELECTS at the breakpoint itself -- which is what automatic differentiation differentiates -- has that same derivative with respect to alpha (formal differentiation of the interpreted branch; default alpha0)", "BOUNDARY", floor=4)
     _boundary_gradients(ctx, r3, repo)
     table = shim_table(repo)
+    r4 = ctx.rule("C13.R4", "POINT: on the jax path the function that is differentiated is evaluated at the vector holding every fixed parameter at its own index with its own value and the free parameters in order in between -- shim and _final_objective composed by interpretation (real _TensorViewer), for fixed parameters listed in ascending and in other orders", "POINT", floor=4)
+    from .c05 import jax_objective_point
+    jax_objective_point(ctx, r4, repo, table, repo.func(OPT + "common.py", "_make_stitch_pars"), repo.func(OPT + "common.py", "shim"))
     for backend in ("pytorch", "tensorflow"):
         rel = table.get(backend)
         if rel is None:
@@ -74,6 +77,9 @@ def run(ctx):
             ctx.holds(r1, site, "value of the gradient arm == value of the plain arm == objective(stitch(pars), data, pdf)")
         else:
             ctx.violated(r1, w, "value returned with the gradient", "the value returned next to the gradient is not the objective of the non-differentiating path", expected=str(nval), found=str(val))
+        if any(e_[0] == "backward" for e_ in g.events) or "ACCUMULATED_GRAD_ATTRIBUTE" in str(grad):
+            ctx.violated(r1, w, "gradient read from tensor.grad", "the gradient is produced by backward() and read from the tensor's .grad attribute, which ACCUMULATES over calls: a second evaluation at the same tensor object returns the sum of the gradients (and the array returned earlier changes in place); the functional form autograd.grad(value, pars) does not", expected="torch.autograd.grad(value, pars)[0]", found=str(grad)[:120])
+            continue
         if len(g.grad_calls) != 1:
             ctx.violated(r1, w, "gradient call", f"expected one AD call, found {len(g.grad_calls)}")
             continue
